@@ -69,7 +69,7 @@ def net_case(draw, restricted):
         classes = draw(st.sampled_from(_ANY))
         edges = draw(bandnets.band_edges(same_fmax=draw(st.booleans())))
         si = 'C'
-    topo, truth = draw(bandnets.band_topology(classes, edges, n=(2, 4), extra_max=2))
+    topo, truth = draw(bandnets.band_topology(classes, edges, n=(2, 4), extra_max=2, oneway=True))
     return {'kind': 'generated', 'edges': edges, 'si': si, 'design_reduced': draw(st.booleans()), 'topo': topo,
             'truth': truth, 'classes': classes}
 
@@ -285,7 +285,12 @@ def run_net(case, ctx):
                 lid, d = keys.pop()
                 want = (lid, 'ba' if d == 'ab' else 'ab')
                 got = None if rev is None else {netgen.link_of(u) for u in rev.el_id_list[1:-1]}
-                if got != {want}:
+                if lid in case['truth'].get('oneway', []):
+                    ctx.label('link-equipped-in-one-direction-only')
+                    if rev is not None:
+                        ctx.violation('reversed_oms:one-way-link-paired', f'oms {idx} is link {lid} {d}, which has no opposite '
+                                                                          f'direction; reversed_oms covers {got}')
+                elif got != {want}:
                     ctx.violation('reversed_oms:not-the-opposite-direction-of-the-same-link',
                                   f'oms {idx} is link {lid} {d}; reversed_oms covers {got}')
             else:
